@@ -41,6 +41,9 @@ inductive Reason where
   | awaitsAccounted
   /-- the limiter's sleep, awaited against `ctx.Done()` by its caller (`rate_limited_probe_interruptible`) -/
   | awaitedAgainstCtx
+  /-- waits for the target list on stdin to end (`-f -`): like every read of an input file it sits in a generator
+      goroutine that the return path of the scan does not wait for — never in `engine.Start` itself (D29) -/
+  | inputRead
   /-- may block after cancellation, in a goroutine the return path of the scan does not wait for: the packet sender
       (rate slot, full error buffer) and the ARP-cache stage behind it; the Pipe model lets them stop anywhere
       (`C12_packet_no_panic`, `C12_packet_errc_closes` hold with these goroutines stuck) -/
